@@ -34,6 +34,8 @@ def obligations(tier):
     obs.append(Ob("C01.val/default_literal", "drv", "c_default", {"VF_DKIND": 1, "VF_MAXV": mv[1]}, t, FN_ACT, f"DEFAULT '<text>': any text of 1..{mv[1]} characters without a quote"))
     obs.append(Ob("C01.val/default_number", "drv", "c_default", {"VF_DKIND": 2, "VF_MAXV": mv[2], "VF_UF": 1}, t, FN_ACT, f"DEFAULT <digits>: any digit string of 1..{mv[2]} digits -> int(text), int uninterpreted"))
     obs.append(Ob("C01.val/size_n", "drv", "c_size", {"VF_SFORM": 0, "VF_MAXV": mv[3], "VF_UF": 1}, t, FN_ACT, f"(n): digit string of 1..{mv[3]} digits"))
+    obs.append(Ob("C01.val/size_n/interpreted", "drv", "c_size", {"VF_SFORM": 0, "VF_MAXV": 2, "VF_UF": 0}, t, FN_ACT, "(n): every digit string of 1..2 digits incl. 0, 00, 07 with the interpreted int(): size == its value, an int (a size of 0 is a size)"))
+    obs.append(Ob("C01.val/size_p_s/interpreted", "drv", "c_size", {"VF_SFORM": 1, "VF_MAXV": 1, "VF_UF": 0}, t, FN_ACT, "(p, s): every pair of one-digit numerals incl. 0 with the interpreted int()"))
     obs.append(Ob("C01.val/size_p_s", "drv", "c_size", {"VF_SFORM": 1, "VF_MAXV": mv[3], "VF_UF": 1}, t, FN_ACT, f"(p, s): digit strings of 1..{mv[3]} digits each"))
     obs.append(Ob("C01.pipe/default-literal", "pipe", "c_literal", {"VF_PI": 0}, 300 if tier == "quick" else 900,
                   ["whole pipeline (harness/pipe.py) on CREATE TABLE t (p int, k varchar(20) DEFAULT <literal> NOT NULL, q int)"],
